@@ -372,7 +372,7 @@ def batch_strategy(n):
     how = st.sampled_from(['cell', 'override', 'blank'])
     return st.tuples(st.lists(expr, min_size=n, max_size=n),
                      st.lists(st.tuples(cellval, how), min_size=len(REFS), max_size=len(REFS)),
-                     st.randoms(use_true_random=False))
+                     st.integers(0, 2 ** 62).map(random.Random))   # drawn eagerly: the budget guard may skip a body without changing what is drawn
 
 
 def make_cases(asts, cellspec, rnd, src):
